@@ -103,6 +103,9 @@ def run(ctx):
     ctx.rule("R-INCREMENTAL-DECODE", "text is decoded incrementally with one decoder and a final flush")
     ctx.rule("R-EAGER-LAZY", "sources are read lazily unless buffer_now; helpers pass their arguments through")
     ctx.rule("R-EQ-READS-BOTH", "equality compares type and bytes of both operands; ContentType compares/renders every field")
+    ctx.rule("R-SNAPSHOT-COPY", "the copies made when details are gathered hold bytes materialised at copy time, never the source's own buffer")
+    from .common import check_copy_content_snapshot
+    check_copy_content_snapshot(ctx, "R-SNAPSHOT-COPY")
     classes = ctx.classes
     mod = ctx.repo.module(CONTENT)
 
